@@ -42,7 +42,7 @@ class Prop(BaseProp):
             "regime)")
     budget = {"quick": 700, "thorough": 72000}
     must_see = ["reconcile_outside_kept_1e-7", "reconcile_outside_dropped_1e-5", "reconcile_different_edges",
-                "reconcile_duplicates", "reconcile_sorted_input", "different_edges_measure_call", "inplace_edit_history", "list_mutated_between_calls", "dirty_call", "reconcile_false_call", "mrts_auto", "constructor_alias_checked",
+                "reconcile_duplicates", "reconcile_sorted_input", "different_edges_measure_call", "inplace_edit_history", "inplace_edge_edit_history", "list_mutated_between_calls", "dirty_call", "reconcile_false_call", "mrts_auto", "constructor_alias_checked",
                 "readonly_calls"] + ["ep:" + e[0] for e in common.ENTRY_POINTS] + ["ep:filter_by_spike_sync"]
     arm_files = [("pyspike/spikes.py", ["reconcile_spike_trains", "reconcile_spike_trains_bi"]), ("pyspike/generic.py", None)]
     assumptions = ["times within 4 ulp of the 1e-6 tolerance boundary are not generated (the statement's tolerance is "
@@ -227,6 +227,27 @@ class Prop(BaseProp):
             d = common.result_equal(ps, r_used, r_fresh)
             ctx.expect(d is None, "stale-state-after-inplace-edit:" + name,
                        "%s on a train that was used before and then edited in place differs from a fresh train with the same content: %s" % (name, d))
+        # the same with the EDGES edited in place and reconciliation switched off (valid trains; an empty one included,
+        # whose auxiliary edge spikes must follow the current edges)
+        ctx.count("inplace_edge_edit_history")
+        e1 = ps.SpikeTrain(np.array([], dtype=float), [ts, te])
+        e2 = ps.SpikeTrain(np.array(sorted(set(tr[0])), dtype=float), [ts, te])
+        for name in ("isi_profile", "spike_profile", "isi_distance", "spike_distance", "spike_sync_profile"):
+            fn = getattr(ps, name)
+            ctx.call(fn, e1, e2, Reconcile=False, _repeat=False)
+        T_ = te - ts
+        for o in (e1, e2):
+            o.t_start = ts - T_ / 4
+            o.t_end = te + T_ / 2
+        f1 = ps.SpikeTrain(np.array([], dtype=float), [e1.t_start, e1.t_end])
+        f2 = ps.SpikeTrain(e2.spikes.copy(), [e2.t_start, e2.t_end])
+        for name in ("isi_profile", "spike_profile", "isi_distance", "spike_distance", "spike_sync_profile"):
+            fn = getattr(ps, name)
+            r_used = ctx.call(fn, e1, e2, Reconcile=False, _repeat=False)
+            r_fresh = ctx.call(fn, f1, f2, Reconcile=False, _repeat=False)
+            d = common.result_equal(ps, r_used, r_fresh)
+            ctx.expect(d is None, "stale-state-after-inplace-edit:edges:" + name,
+                       "%s(Reconcile=False) on trains whose edges were changed in place differs from fresh trains with the same content: %s" % (name, d))
         rr = ctx.call(reconcile_spike_trains, [h, other], _name="reconcile_spike_trains")
         want = sorted({float(t) for t in h.spikes.tolist() if ts - EPS < t < te + EPS})
         ctx.expect(np.asarray(rr[0].spikes, dtype=float).tolist() == want, "stale-state-after-inplace-edit:reconcile",
